@@ -75,4 +75,34 @@ static void httpSchedule(Dec &d, Case &c) {
     for (auto &kv : byHandle) (void)kv; KSI_AsyncService_free(as);
     c.desc = trace.substr(0, 300); c.nontrivial = reqs.size() >= 2; c.cls("backend:http"); if (faults) c.cls("http:transfer-faults"); if (reuseAfterFault && valids) c.cls("http:request-after-failed-transfer");
 }
+// two HTTP services on ONE context (the client shares one transfer engine per context): whichever service happens to be run when a transfer of the other one finishes,
+// every request comes back from its own service, once, with the reply to its own hash
+static void httpTwoServices(Dec &d, Case &c) {
+    resetSim(); Ctx ctx; std::string login = "u", key = "k-secret"; Bytes keyB(key.begin(), key.end()); KSI_AsyncService *svc[2] = {nullptr, nullptr}; std::string trace = "http two services: ";
+    for (int i = 0; i < 2; i++) { KSI_SigningAsyncService_new(ctx, &svc[i]); KSI_AsyncService_setEndpoint(svc[i], i ? "ksi+http://aggr-b.example.test:8080/gt-signingservice" : "ksi+http://aggr-a.example.test:8080/gt-signingservice", login.c_str(), key.c_str());
+        KSI_AsyncService_setOption(svc[i], KSI_ASYNC_OPT_REQUEST_CACHE_SIZE, (void *)(size_t)4); KSI_AsyncService_setOption(svc[i], KSI_ASYNC_OPT_MAX_REQUEST_COUNT, (void *)(size_t)100); KSI_AsyncService_setOption(svc[i], KSI_ASYNC_OPT_RCV_TIMEOUT, (void *)(size_t)100000); KSI_AsyncService_setOption(svc[i], KSI_ASYNC_OPT_SND_TIMEOUT, (void *)(size_t)100000); }
+    struct R { int svc; int idx; Bytes hash; KSI_AsyncHandle *h = nullptr; int transfer = -1; uint64_t id = 0; bool planned = false, returned = false; }; std::vector<R> reqs; bool stop = false;
+    auto fail = [&](const std::string &k, const std::string &m) { VF_FAIL(c, k, m + " | " + trace); stop = true; };
+    sim::http().onRequest = [&](const sim::HttpRequest &rq) { sim::HttpReply rp; rp.pending = true; ReqInfo ri = parseRequest(rq.body); if (ri.ok && ri.hasHash) for (auto &r : reqs) if (r.hash == ri.hash && r.transfer < 0) { r.transfer = rq.id; r.id = ri.reqId; break; } return rp; };
+    sim::http().onPoll = [&](const sim::HttpRequest &rq, sim::HttpReply &rp) -> bool { for (auto &r : reqs) if (r.transfer == rq.id && r.planned) { rp.body = validReply(r.hash, r.id, r.idx, keyB); return true; } return false; };
+    unsigned n = 2 + d.pick(3); for (unsigned i = 0; i < n; i++) { R r; r.svc = i < 2 ? (int)i : (int)d.pick(2); r.idx = (int)i; r.hash = hashOf(40 + (int)i); KSI_AggregationReq *rq = nullptr; KSI_AggregationReq_new(ctx, &rq); KSI_DataHash *dh = nullptr; KSI_DataHash_fromImprint(ctx, r.hash.data(), r.hash.size(), &dh); KSI_AggregationReq_setRequestHash(rq, dh); KSI_AsyncAggregationHandle_new(ctx, rq, &r.h);
+        if (KSI_AsyncService_addRequest(svc[r.svc], r.h) != KSI_OK) { KSI_AsyncHandle_free(r.h); fail("C13:http2:submission-refused", "submission refused"); break; } trace += "add" + num(r.idx) + "@" + (r.svc ? "B " : "A "); reqs.push_back(r); }
+    auto run = [&](int sv) { KSI_AsyncHandle *out = nullptr; size_t w = 0; KSI_AsyncService_run(svc[sv], &out, &w); trace += sv ? "runB " : "runA "; if (!out) return; int st = 0; KSI_AsyncHandle_getState(out, &st); R *own = nullptr; for (auto &r : reqs) if (r.h == out) own = &r;
+        if (!own) { fail("C13:http2:unknown-handle-returned", "a handle that was not submitted came back"); KSI_AsyncHandle_free(out); return; }
+        if (own->svc != sv) fail("C13:http2:returned-by-the-other-service", "request " + num(own->idx) + " was submitted to service " + (own->svc ? "B" : "A") + " and came back from the other one");
+        else if (own->returned) fail("C13:http2:returned-twice", "request " + num(own->idx) + " handed back twice");
+        else if (st != KSI_ASYNC_STATE_RESPONSE_RECEIVED) { int e = 0; KSI_AsyncHandle_getError(out, &e); fail(own->planned ? "C13:http2:error-without-cause" : "C13:http2:error-while-transfer-pending", "request " + num(own->idx) + " ended in state " + num(st) + " error " + num(e) + (own->planned ? " although its own transfer delivered a valid reply" : " although its transfer has not completed")); }
+        else if (!own->planned) fail("C13:http2:response-before-own-transfer-completed", "request " + num(own->idx) + " of service " + (own->svc ? "B" : "A") + " was completed although its own transfer is still pending (another request's reply was used)");
+        else { KSI_Signature *sg = nullptr; int rs = KSI_AsyncHandle_getSignature(out, &sg); Bytes enc = serializeSig(sg); Sig m; std::string e; if (rs != KSI_OK || !decodeSig(enc, m, e) || m.docHash() != own->hash) fail("C13:http2:signature-for-another-request", "signature handed out for request " + num(own->idx) + " is missing or for another hash"); KSI_Signature_free(sg); }
+        own->returned = true; trace += "<-" + num(own->idx) + " "; KSI_AsyncHandle_free(out); };
+    // both services dispatch; then transfers complete one by one while only one (generated) service is being run
+    for (int k = 0; k < 2 && !stop; k++) { run(0); run(1); }
+    std::vector<size_t> order; for (size_t i = 0; i < reqs.size(); i++) order.push_back(i); for (size_t i = order.size(); i > 1; i--) std::swap(order[i - 1], order[d.pick((uint32_t)i)]);
+    for (size_t oi = 0; oi < order.size() && !stop; oi++) { R &r = reqs[order[oi]]; if (r.transfer < 0) { fail("C13:http2:request-not-dispatched", "request " + num(r.idx) + " never reached the HTTP library"); break; } r.planned = true; trace += "complete" + num(r.idx) + " "; int runner = (int)d.pick(3); for (int k = 0; k < 3 && !stop; k++) { if (runner == 2) { run(0); run(1); } else run(runner); } }
+    for (int k = 0; k < 12 && !stop; k++) { run(0); run(1); }
+    if (!stop) for (auto &r : reqs) if (!r.returned) { fail("C13:http2:request-lost", "request " + num(r.idx) + " of service " + (r.svc ? "B" : "A") + " was never handed back although its transfer completed"); break; }
+    if (!stop) for (int i = 0; i < 2; i++) { size_t pc = 0; KSI_AsyncService_getPendingCount(svc[i], &pc); if (pc) { fail("C13:http2:pending-count", "service " + std::string(i ? "B" : "A") + " still reports " + num((long long)pc) + " pending request(s)"); break; } }
+    for (auto &r : reqs) if (!r.returned) { /* still owned by its service */ } KSI_AsyncService_free(svc[0]); KSI_AsyncService_free(svc[1]);
+    c.desc = trace.substr(0, 300); c.nontrivial = true; c.cls("backend:http"); c.cls("http:two-services-on-one-context");
+}
 }
